@@ -13,6 +13,7 @@ func init() {
 			ruleSingleConsumer(c, "C01.8")
 			ruleWatcher(c, "C01.9")
 			ruleDecodeResets(c, "C01.10")
+			ruleCloseSendAfterFinish(c, "C01.11")
 		},
 		Explain:    "Static structural necessary conditions of exactly-once/in-order/intact delivery on the right RPC, decided on the SSA form of the current tree: byte accounting of the chunk loops in both senders, envelope/continuation construction in both send callbacks, the state machine of both reassembly functions (every loop edge and every return classified), non-nil error whenever no data is returned (marker-before-wake argument), routing by the received frame's own id, id origin of every emitted frame, FIFO/drain-before-EOF discipline of the queue, single consumer under the read mutex. All paths, all instantiations; no bound on sizes or schedules. Not the behaviour itself: byte equality through protobuf and the transport are trusted.",
 		Assume:     []string{"protobuf marshal/unmarshal and the carrier transport deliver bytes unchanged and in order", "gRPC's one-sender/one-receiver-per-stream contract", "container/list is FIFO with PushBack/Front"},
